@@ -471,3 +471,463 @@ def _key_codec(f: FuncInfo, key: str) -> Optional[str]:
                 if isinstance(c, ast.Call) and isinstance(c.func, ast.Name) and c.func.id.startswith("axis_"):
                     return c.func.id
     return None
+
+
+# ======================================================================================================================
+# Mutation-sweep round: every array object of the list is written (array k with metadata k) and read back.
+# ======================================================================================================================
+from ..cfg import DataFlow  # noqa: E402
+from ..model import bind_args, kw  # noqa: E402
+from ..rules import listacct as la  # noqa: E402
+
+_SIMPLE = (ast.Assign, ast.AugAssign, ast.AnnAssign, ast.Expr, ast.Return, ast.Delete, ast.Pass, ast.Assert)
+
+
+def _simple_stmts(node):
+    return [s for s in ast.walk(node) if isinstance(s, _SIMPLE)]
+
+
+def _path_deps(expr: ast.AST, executed) -> set[str]:
+    """Names `expr` depends on through the assignments / item stores / mutator calls executed on the same path."""
+    seen: set[str] = set()
+    work = [n.id for n in ast.walk(expr) if isinstance(n, ast.Name)]
+    while work:
+        v = work.pop()
+        if v in seen:
+            continue
+        seen.add(v)
+        for st in executed:
+            if isinstance(st, ast.Assign):
+                for t in st.targets:
+                    base = t
+                    while isinstance(base, (ast.Subscript, ast.Attribute)):
+                        base = base.value
+                    if isinstance(base, ast.Name) and base.id == v:
+                        work += [n.id for n in ast.walk(st.value) if isinstance(n, ast.Name)]
+                    elif isinstance(t, (ast.Tuple, ast.List)) and any(isinstance(e, ast.Name) and e.id == v for e in t.elts):
+                        work += [n.id for n in ast.walk(st.value) if isinstance(n, ast.Name)]
+    return seen
+
+
+def _fprefix(e: ast.AST) -> Optional[tuple[str, ast.AST]]:
+    """f"<identifier>{expr}" -> (prefix, expr)."""
+    if isinstance(e, ast.JoinedStr) and len(e.values) == 2 and isinstance(e.values[0], ast.Constant) and \
+            isinstance(e.values[1], ast.FormattedValue) and str(e.values[0].value).isidentifier():
+        return e.values[0].value, e.values[1].value
+    return None
+
+
+def _tuple_roles(elt: ast.AST, env: dict[str, str]) -> list[str]:
+    """Role of every position of a tuple display: 'idx' (exactly the counter), 'arr' (derives from the array and not
+    from the counter), '?' otherwise."""
+    if not isinstance(elt, ast.Tuple):
+        raise AnalysisError(f"`{norm_text(elt)[:50]}`: expected a tuple (number, array)")
+    out = []
+    for e in elt.elts:
+        names = {n.id for n in ast.walk(e) if isinstance(n, ast.Name)}
+        r = {env[n] for n in names if n in env}
+        if isinstance(e, ast.Name) and env.get(e.id) == "idx":
+            out.append("idx")
+        elif r == {"arr"}:
+            out.append("arr")
+        else:
+            out.append("?")
+    return out
+
+
+def _write_all(ctx, repo) -> None:
+    R = "R-WRITEALL"
+    clist = repo.method(ARR, "ComputableList", "to_zarr")
+    K = clist.qualname
+    df = DataFlow(clist.node)
+    top = list(clist.node.body)
+    loops = []
+    for l in top:
+        if isinstance(l, ast.For):
+            try:
+                r = la.pairing(l.target, l.iter)
+            except AnalysisError:
+                continue
+            idx = [v for v, x in r.items() if x[0] == "index" and dotted(x[1]) == "self" and (
+                x[2] is None or (isinstance(x[2], ast.Constant) and x[2].value == 0))]
+            el = [v for v, x in r.items() if x[0] == "elem" and dotted(la.strip_seq(x[1])) == "self"]
+            if len(idx) == 1 and len(el) == 1:
+                loops.append((l, idx[0], el[0]))
+    ctx.require(len(loops) == 1, f"{K}: the loop `for i, obj in enumerate(self)` was not found")
+    loop, ivar, evar = loops[0]
+    before = top[:top.index(loop)]
+    # a list that lost its append is still a list that is handed to the writer: take every empty list of the prologue
+    # that reaches a call of a nested writer
+    nested = {n.name: n for n in ast.walk(clist.node) if isinstance(n, ast.FunctionDef) and n is not clist.node}
+    calls = [c for c in walk_no_nested(clist.node) if isinstance(c, ast.Call) and isinstance(c.func, ast.Name)
+             and c.func.id in nested]
+    empties = sorted({t.id for b in before for s in _simple_stmts(b) if isinstance(s, ast.Assign)
+                      and isinstance(s.value, ast.List) and not s.value.elts for t in s.targets if isinstance(t, ast.Name)})
+    tracked = []
+    for v in empties:
+        for c in calls:
+            node = df.cfg.node_of(_enclosing_simple(clist.node, c)).idx
+            if any(v in df.backward_slice(node, a).visited for a in list(c.args) + [k.value for k in c.keywords]):
+                tracked.append(v)
+                break
+    ctx.require(len(tracked) == 2, f"{K}: expected two lists (arrays, metadata) handed to the writer, found {tracked}")
+
+    def relevant(s):
+        return isinstance(s, _SIMPLE) and any(la.growth(s, v) for v in tracked)
+
+    per_list: dict[str, list] = {v: [] for v in tracked}
+    elts: dict[str, list] = {v: [] for v in tracked}
+    for conds, ex, end in la.body_paths(loop.body, relevant):
+        if end == "raise":
+            continue
+        ctx.require(end in (None, "continue"), f"{K}: a pass over the array objects can leave the loop early")
+        for v in tracked:
+            n, es = la.count_added([s for s in ex if isinstance(s, _SIMPLE)], v)
+            per_list[v].append(n)
+            elts[v] += [(e, ex) for e in es]
+    kind: dict[str, str] = {}
+    for v in tracked:
+        forms = set()
+        for e, ex in elts[v]:
+            if isinstance(e, ast.Dict) and len(e.keys) == 1 and e.keys[0] is not None and _fprefix(e.keys[0]):
+                forms.add("meta")
+            elif isinstance(e, ast.Tuple):
+                forms.add("arr")
+            else:
+                raise AnalysisError(f"{K}: `{norm_text(e)[:50]}` appended to `{v}` is neither (number, array) nor "
+                                    "{f\"<prefix>{number}\": metadata}")
+        kind[v] = forms.pop() if len(forms) == 1 else "?"
+    unknown = [v for v in tracked if kind[v] == "?"]
+    if len(unknown) == 1 and len(tracked) == 2:
+        kind[unknown[0]] = ({"arr", "meta"} - {kind[v] for v in tracked if v not in unknown}).pop()
+    ctx.require(sorted(kind.values()) == ["arr", "meta"], f"{K}: cannot tell the array list from the metadata list")
+    A = next(v for v in tracked if kind[v] == "arr")
+    M = next(v for v in tracked if kind[v] == "meta")
+    for v, what in ((A, "array"), (M, "metadata")):
+        bad = [n for n in per_list[v] if n != 1]
+        ctx.check(not bad, R, f"{K}:one {what} entry per object", clist.loc(loop),
+                  f"every pass over the array objects queues exactly one {what} entry",
+                  f"a pass over the array objects queues {bad[0] if bad else 1} {what} entries: "
+                  + ("an object's array is never written (its metadata is), so the file cannot be read back" if what == "array"
+                     else "an object's metadata is never written, so its array is not found on reading"),
+                  key_detail=f"count-{what}")
+    # numbering: both entries of one pass carry the enumerate counter
+    prob = []
+    a_roles = None
+    for e, ex in elts[A]:
+        env = {ivar: "idx"}
+        env.update({n: "arr" for n in _path_deps(e, ex) if evar in _path_deps(ast.Name(id=n, ctx=ast.Load()), ex)
+                    and n != ivar})
+        roles = _tuple_roles(e, env)
+        if sorted(roles) != ["arr", "idx"]:
+            prob.append(f"`{norm_text(e)}` is not (number of the object, its array)")
+        a_roles = roles
+    for e, ex in elts[M]:
+        pre, num = _fprefix(e.keys[0])
+        if not (isinstance(num, ast.Name) and num.id == ivar):
+            prob.append(f"the metadata key `{norm_text(e.keys[0])}` is not numbered by the position of the object")
+        if evar not in _path_deps(e.values[0], ex):
+            prob.append("the metadata entry does not derive from the object of this pass")
+    ctx.check(not prob, R, f"{K}:numbering", clist.loc(loop),
+              "array and metadata of one object are queued under the same number (its position in the list)",
+              "; ".join(prob), key_detail="numbering")
+
+    # ---- the writers: the queued lists reach the parameter that is stored
+    m_file = clist.module
+    n_writers = 0
+    for c in calls:
+        st = _enclosing_simple(clist.node, c)
+        node = df.cfg.node_of(st).idx
+        fn = FuncInfo(m_file, nested[c.func.id], None)
+        b = bind_args(c, fn)
+        srcs = {}
+        for p, a in b.items():
+            vis = df.backward_slice(node, a)
+            srcs[p] = ("arr" if A in vis.visited else "meta" if M in vis.visited else
+                       "url" if "url" in vis.params and not (vis.visited & {A, M}) else "other")
+        if "arr" not in srcs.values() and "meta" not in srcs.values():
+            continue  # encode_types(...) and other helpers
+        n_writers += 1
+        W = f"{K}.{fn.name}"
+        pa = [p for p, s_ in srcs.items() if s_ == "arr"]
+        pm = [p for p, s_ in srcs.items() if s_ == "meta"]
+        ctx.require(len(pa) == 1 and len(pm) == 1, f"{W}: the queued lists are not passed as two separate arguments")
+        # positions (number, array) inside the argument
+        arg = b[pa[0]]
+        roles = a_roles
+        if not (isinstance(arg, ast.Name) and arg.id == A):
+            d = df.single_def(node, arg.id) if isinstance(arg, ast.Name) else None
+            comp = d.value if d is not None else arg
+            ctx.require(isinstance(comp, ast.ListComp) and len(comp.generators) == 1 and not comp.generators[0].ifs
+                        and dotted(la.strip_seq(comp.generators[0].iter)) == A,
+                        f"{W}: the array argument is not the queued list or a one-to-one comprehension over it")
+            tgt = comp.generators[0].target
+            ctx.require(isinstance(tgt, ast.Tuple) and a_roles is not None and len(tgt.elts) == len(a_roles)
+                        and all(isinstance(e, ast.Name) for e in tgt.elts), f"{W}: comprehension target")
+            env = {e.id: r for e, r in zip(tgt.elts, a_roles)}
+            roles = _tuple_roles(comp.elt, env)
+        probs = []
+        if roles is None or sorted(roles) != ["arr", "idx"]:
+            probs.append(f"the argument `{norm_text(arg)[:40]}` no longer pairs each array with its number")
+        stores_ok = False
+        wnode = nested[c.func.id]
+        for l in (x for x in ast.walk(wnode) if isinstance(x, ast.For)):
+            if dotted(la.strip_seq(l.iter)) != pa[0]:
+                continue
+            r = la.pairing(l.target, l.iter)
+            byk = {x[2]: v for v, x in r.items() if x[0] == "field"}
+            if roles is None or len(byk) != len(roles):
+                probs.append(f"`for {norm_text(l.target)} in {pa[0]}` does not unpack (number, array)")
+                continue
+            nvar, dvar = byk[roles.index("idx")] if "idx" in roles else None, byk[roles.index("arr")] if "arr" in roles else None
+            for conds, ex, end in la.body_paths(l.body, lambda s: isinstance(s, ast.Expr) and "create_array" in norm_text(s)):
+                if end == "raise":
+                    continue
+                cr = [x for s in ex for x in ast.walk(s) if isinstance(x, ast.Call) and isinstance(x.func, ast.Attribute)
+                      and x.func.attr in ("create_array", "create_dataset", "array")]
+                if len(cr) != 1:
+                    probs.append(f"a pass over `{pa[0]}` creates {len(cr)} zarr arrays: the data of the array objects is "
+                                 "not stored (reading back fails on the missing array)")
+                    continue
+                nm, dt = kw(cr[0], "name"), kw(cr[0], "data")
+                fp = _fprefix(nm) if nm is not None else None
+                if fp is None or not (isinstance(fp[1], ast.Name) and fp[1].id == nvar):
+                    probs.append(f"the zarr array is named `{norm_text(nm) if nm is not None else '?'}`, not by the number "
+                                 "queued with the array")
+                if not (isinstance(dt, ast.Name) and dt.id == dvar):
+                    probs.append(f"the zarr array stores `{norm_text(dt) if dt is not None else '?'}`, not the queued array")
+                stores_ok = True
+        if not stores_ok and not probs:
+            probs.append(f"the parameter `{pa[0]}` that receives the queued arrays is never walked over to create the zarr "
+                         "arrays (arguments in the wrong order, or the creation was dropped)")
+        # metadata entries: root.attrs[key] = value for key, value in <entry>.items()
+        meta_ok = False
+        for l in (x for x in ast.walk(wnode) if isinstance(x, ast.For)):
+            if dotted(la.strip_seq(l.iter)) != pm[0] or not isinstance(l.target, ast.Name):
+                continue
+            for l2 in (x for x in ast.walk(l) if isinstance(x, ast.For) and x is not l):
+                it2 = l2.iter
+                if isinstance(it2, ast.Call) and isinstance(it2.func, ast.Attribute) and it2.func.attr == "items" and \
+                        dotted(it2.func.value) == l.target.id and isinstance(l2.target, ast.Tuple) and len(l2.target.elts) == 2 \
+                        and all(isinstance(e, ast.Name) for e in l2.target.elts):
+                    kvar, vvar = l2.target.elts[0].id, l2.target.elts[1].id
+                    for s in l2.body:
+                        if isinstance(s, ast.Assign) and len(s.targets) == 1 and isinstance(s.targets[0], ast.Subscript) \
+                                and (dotted(s.targets[0].value) or "").endswith(".attrs"):
+                            if dotted(s.targets[0].slice) == kvar and dotted(s.value) == vvar:
+                                meta_ok = True
+                            else:
+                                probs.append(f"`{norm_text(s)}` does not store each metadata entry under its own key")
+        if not meta_ok and not any("metadata entry" in p for p in probs):
+            probs.append(f"the parameter `{pm[0]}` that receives the queued metadata is never written to the attributes of "
+                         "the zarr group")
+        pu = [p for p, s_ in srcs.items() if s_ == "url"]
+        opens = [x for x in ast.walk(wnode) if isinstance(x, ast.Call) and (dotted(x.func) or "").split(".")[-1] in (
+            "ZipStore", "open", "open_group", "LocalStore", "DirectoryStore") and (dotted(x.func) or "").startswith("zarr")]
+        if opens and not any(x.args and isinstance(x.args[0], ast.Name) and x.args[0].id in pu for x in opens):
+            probs.append("the store is not opened at the parameter that receives the url")
+        ctx.check(not probs, R, f"{W}:stores what was queued", clist.loc(c),
+                  f"`{pa[0]}` is walked as (number, array) -> create_array(name=f\"<prefix>{{number}}\", data=array); "
+                  f"`{pm[0]}` -> group.attrs[key] = value; store opened at the url",
+                  "; ".join(probs), key_detail="writer")
+    ctx.require(n_writers >= 2, f"{K}: fewer than two writer calls (zip store, directory) found")
+
+
+def _enclosing_simple(func: ast.AST, node: ast.AST) -> ast.stmt:
+    best = None
+    for st in ast.walk(func):
+        if isinstance(st, _SIMPLE) and any(n is node for n in ast.walk(st)):
+            best = st
+    if best is None:
+        raise AnalysisError("statement of a call not found")
+    return best
+
+
+def _read_all(ctx, repo) -> None:
+    R = "R-READALL"
+    canon = repo.function(ARR, "_from_zarr_canonical")
+    K = canon.qualname
+    top = list(canon.node.body)
+    loops = [l for l in top if isinstance(l, (ast.While, ast.For))]
+    ctx.require(len(loops) == 1 and isinstance(loops[0], ast.While), f"{K}: expected one `while` loop over the stored objects")
+    loop = loops[0]
+    before, after = top[:top.index(loop)], top[top.index(loop) + 1:]
+    empties = [t.id for b in before for s in _simple_stmts(b) if isinstance(s, ast.Assign) and isinstance(s.value, ast.List)
+               and not s.value.elts for t in s.targets if isinstance(t, ast.Name)]
+    ret_names = {n.id for a in after for r in ast.walk(a) if isinstance(r, ast.Return) and r.value is not None
+                 for n in ast.walk(r.value) if isinstance(n, ast.Name)}
+    Ls = [v for v in empties if v in ret_names]
+    ctx.require(len(Ls) == 1, f"{K}: the returned list was not found")
+    L = Ls[0]
+    # the counter: the variable all store keys f"<prefix>{i}" of the loop are numbered with
+    keys = [(_fprefix(n), n) for n in ast.walk(loop) if isinstance(n, ast.JoinedStr) and _fprefix(n)]
+    cvars = {norm_text(k[1]) for k, _ in keys}
+    ctx.require(len(keys) >= 2 and len(cvars) == 1 and all(isinstance(k[1], ast.Name) for k, _ in keys),
+                f"{K}: the store keys of one pass are not numbered with one counter ({sorted(cvars)})")
+    C = cvars.pop()
+    cinit = [s for b in before for s in _simple_stmts(b) if isinstance(s, ast.Assign) and any(
+        isinstance(t, ast.Name) and t.id == C for t in s.targets)]
+    ctx.require(len(cinit) == 1 and isinstance(cinit[0].value, ast.Constant) and cinit[0].value.value == 0,
+                f"{K}: the counter does not start at 0")
+    prefixes = {k[0] for k, _ in keys}
+
+    def relevant(s):
+        return isinstance(s, _SIMPLE) and (bool(la.growth(s, L)) or la.step(s, C) is not None)
+
+    grow_bad, step_bad, order_bad, src_bad = [], [], [], []
+    n_pass = 0
+    for conds, ex, end in la.body_paths(loop.body, relevant):
+        if end in ("raise", "break"):
+            continue
+        ctx.require(end in (None, "continue"), f"{K}: a pass can return from inside the loop")
+        n_pass += 1
+        simple = [s for s in ex if isinstance(s, _SIMPLE)]
+        n, es = la.count_added(simple, L)
+        if n != 1:
+            grow_bad.append(n)
+        stp = la.count_steps(simple, C)
+        if stp != 1:
+            step_bad.append(stp)
+        # no key is built between two... the counter moves only before the first or after the last key of the pass
+        uses = [k for k, s in enumerate(ex) if any(isinstance(x, ast.JoinedStr) and _fprefix(x) for x in ast.walk(s))]
+        steps = [k for k, s in enumerate(ex) if isinstance(s, _SIMPLE) and la.step(s, C) is not None]
+        if uses and any(min(uses) <= k < max(uses) for k in steps):
+            order_bad.append(True)
+        # the object is built from the entries read under every prefix
+        got = {}
+        for s in ex:
+            if isinstance(s, ast.Assign) and len(s.targets) == 1 and isinstance(s.targets[0], ast.Name):
+                for x in ast.walk(s.value):
+                    if isinstance(x, ast.Subscript):
+                        sl = x.slice
+                        if isinstance(sl, ast.Name):
+                            asg = [y for y in ex if isinstance(y, ast.Assign) and len(y.targets) == 1 and
+                                   isinstance(y.targets[0], ast.Name) and y.targets[0].id == sl.id]
+                            sl = asg[-1].value if asg else sl
+                        fp = _fprefix(sl)
+                        if fp:
+                            got[fp[0]] = s.targets[0].id
+        for e in es:
+            deps = _path_deps(e, ex)
+            missing = [p for p in sorted(prefixes) if got.get(p) not in deps]
+            if missing:
+                src_bad.append(missing)
+    ctx.require(n_pass >= 1, f"{K}: no completed pass through the loop found")
+    ctx.check(not grow_bad, R, f"{K}:one object per stored entry", canon.loc(loop),
+              "every pass that finds a metadata entry appends exactly one rebuilt object (on the normal and the fallback path)",
+              f"a pass appends {grow_bad[0] if grow_bad else 1} objects to the result: stored objects are lost on reading",
+              key_detail="append")
+    ctx.check(not step_bad and not order_bad, R, f"{K}:counter", canon.loc(loop),
+              "the counter advances by one per pass, and not between reading the metadata and the array of one object",
+              (f"the counter advances by {step_bad[0]} per pass" if step_bad else
+               "the counter advances between building the metadata key and the array key: metadata k is combined with "
+               "array k+1"), key_detail="counter")
+    ctx.check(not src_bad, R, f"{K}:object sources", canon.loc(loop),
+              f"the appended object derives from the entries read under {sorted(prefixes)} of the same number",
+              f"the appended object does not depend on what was read under {src_bad[0] if src_bad else ''}",
+              key_detail="sources")
+
+    # ---- from_zarr hands the opened group to the reader parameter whose attributes are read
+    fz = repo.function(ARR, "from_zarr")
+    dfz = DataFlow(fz.node)
+    url = fz.positional_params[0]
+    mfuncs = repo.module(ARR).functions
+    n_disp = 0
+    for c in walk_no_nested(fz.node):
+        if isinstance(c, ast.Call) and isinstance(c.func, ast.Name) and c.func.id in mfuncs and c.func.id != fz.name:
+            callee = mfuncs[c.func.id]
+            roots = {n.value.id for n in ast.walk(callee.node) if isinstance(n, ast.Attribute) and n.attr == "attrs"
+                     and isinstance(n.value, ast.Name) and n.value.id in callee.positional_params}
+            if len(roots) != 1:
+                continue
+            n_disp += 1
+            b = bind_args(c, callee)
+            node = dfz.cfg.node_of(_enclosing_simple(fz.node, c)).idx
+            root = next(iter(roots))
+            ok = root in b and url in dfz.backward_slice(node, b[root]).params and all(
+                url not in dfz.backward_slice(node, a).params for p_, a in b.items() if p_ != root)
+            ctx.check(ok, R, f"{fz.qualname}:{callee.name} operands", fz.loc(c),
+                      f"the group opened at `{url}` is passed as `{root}`",
+                      f"`{norm_text(c)}` does not pass the group opened at `{url}` as `{root}` (the parameter whose "
+                      "attributes and arrays are read)", key_detail="operands")
+    ctx.require(n_disp >= 1, f"{fz.qualname}: no call of a reader found")
+
+    # ---- result: the list, or its only member
+    def pred_single(test):
+        t, pos = la.strip_not(test)
+        if isinstance(t, ast.Compare) and len(t.ops) == 1:
+            sides = [t.left, t.comparators[0]]
+            is_len = any(isinstance(x, ast.Call) and dotted(x.func) == "len" and len(x.args) == 1
+                         and dotted(x.args[0]) == L for x in sides)
+            is_one = any(isinstance(x, ast.Constant) and x.value == 1 and not isinstance(x.value, bool) for x in sides)
+            if is_len and is_one:
+                if isinstance(t.ops[0], ast.Eq):
+                    return pos
+                if isinstance(t.ops[0], ast.NotEq):
+                    return not pos
+                raise AnalysisError(f"{K}: `{norm_text(test)}` is not an (in)equality test of the number of objects")
+        return None
+
+    rets = []
+    for conds, ex, end in la.body_paths(after, lambda s: False):
+        if end != "return":
+            continue
+        v = ex[-1].value
+        work = [(conds, v)]
+        while work:
+            c_, e_ = work.pop()
+            if isinstance(e_, ast.IfExp):
+                work.append((c_ + ((e_.test, True),), e_.body))
+                work.append((c_ + ((e_.test, False),), e_.orelse))
+            else:
+                rets.append((c_, e_))
+    ctx.require(rets, f"{K}: no return after the loop")
+    probs = []
+    for c_, e_ in rets:
+        pol = la.polarity(c_, pred_single)
+        if pol == "infeasible":
+            continue
+        if isinstance(e_, ast.Name) and e_.id == L:
+            if pol is True:
+                probs.append("a file with one object is returned as a list (to_zarr of a single object does not come back "
+                             "as that object)")
+        elif isinstance(e_, ast.Subscript) and dotted(e_.value) == L and la._int_const(e_.slice) is not None:
+            ctx.require(pol is not None or not c_, f"{K}: condition of `return {norm_text(e_)}` not understood")
+            if pol is not True:
+                probs.append(f"`{norm_text(e_)}` is returned although the file holds "
+                             + ("any number of objects" if pol is None else "a number of objects different from one")
+                             + ": the other objects are dropped (or an empty result raises)")
+            if la._int_const(e_.slice) not in (0, -1):
+                probs.append(f"`{norm_text(e_)}` is not the only member of a one-element list (IndexError)")
+        else:
+            raise AnalysisError(f"{K}: `return {norm_text(e_)[:50]}` not understood")
+    ctx.check(not probs, R, f"{K}:result", canon.loc(after[-1]) if after else canon.where,
+              "returns the only object when exactly one was stored, else the whole list",
+              "; ".join(probs), key_detail="result")
+
+
+_inner_run_c30_sweep = run
+
+
+def run(ctx) -> None:  # noqa: F811
+    ctx.rule("R-WRITEALL", "to_zarr stores every array object: each pass of `for i, obj in enumerate(self)` queues exactly "
+             "one (i, array) and one {f\"metadata{i}\": ...} entry on every control path, both numbered by the position "
+             "of the object; the queued lists reach (through bind-by-name of the call) the writer parameters that are "
+             "walked as (number, array) -> create_array(name=f\"array{number}\", data=array) and -> group.attrs[key] = "
+             "value, for the zip-store and the directory writer; the store is opened at the url argument")
+    ctx.rule("R-READALL", "_from_zarr_canonical rebuilds every stored object: each completed pass of the loop appends "
+             "exactly one object (also on the fallback path of the try), the object derives from the entries read "
+             "under every store-key prefix with the same counter value, the counter advances by exactly one per pass; "
+             "the result is the only member iff exactly one object was stored, else the whole list")
+    _write_all(ctx, ctx.repo)
+    _read_all(ctx, ctx.repo)
+    from ..rules import isinst
+    ctx.rule("R-ISINSTANCE", isinst.__doc__.split("—", 1)[1])
+    r_ = ctx.repo
+    funcs = [r_.method(ARR, "ComputableList", "to_zarr"), r_.function(ARR, "from_zarr"),
+             r_.function(ARR, "_from_zarr_canonical"), r_.method(ARR, "ArrayObject", "_metadata_to_dict"),
+             r_.method(ARR, "ArrayObject", "_pack_kwargs"), r_.method(ARR, "ArrayObject", "_unpack_kwargs"),
+             r_.function(reg.AXES_MOD, "axis_to_dict"), r_.function(reg.AXES_MOD, "axis_from_dict")]
+    n_is = isinst.check(ctx, r_, funcs)
+    ctx.require(n_is >= 8, f"R-ISINSTANCE examined only {n_is} isinstance tests")
+    _inner_run_c30_sweep(ctx)
